@@ -15,7 +15,7 @@
    plane count of the merged image produced by PSDImage.save() (C17). *)
 From PsdV Require Import Base.Prelude Psd.Codec Psd.Model Psd.Proofs Psd.Walk Psd.Layout Psd.WalkProofs
   Psd.Leaf Psd.LeafProofs Psd.Descriptor Psd.DescriptorProofs Psd.Effects Psd.EffectsProofs
-  Psd.Patterns Psd.PatternsProofs Psd.Struct Psd.Adjust Psd.AdjustProofs Psd.Vector Psd.VectorProofs Psd.Linked Psd.LinkedProofs.
+  Psd.Patterns Psd.PatternsProofs Psd.Struct Psd.Adjust Psd.AdjustProofs Psd.Vector Psd.VectorProofs Psd.Linked Psd.LinkedProofs Psd.FilterFx Psd.FilterFxProofs.
 From Coq Require Import ZArith List Bool Lia.
 Import ListNotations.
 Open Scope Z_scope.
@@ -107,11 +107,14 @@ Theorem written_truthful_payloads :
   (forall pad a, wtruth (write_adj pad a)) /\ (forall t pad ver dv d, wtruth (write_color_lookup t pad ver dv d)) /\
   (forall r, wtruth (write_prec r)) /\ (forall version flags p, wtruth (write_vmask version flags p)) /\
   (forall t pad key version d, wtruth (write_vscg t pad key version d)) /\
-  (forall enc_s t pad l, wtruth (write_linked enc_s t pad l)) /\ (forall enc_s t l, wtruth (write_linked_layers enc_s t l)).
+  (forall enc_s t pad l, wtruth (write_linked enc_s t pad l)) /\ (forall enc_s t l, wtruth (write_linked_layers enc_s t l)) /\
+  (forall c, wtruth (write_fchannel c)) /\ (forall x, wtruth (write_fextra x)) /\
+  (forall enc_s e, wtruth (write_feffect enc_s e)) /\ (forall enc_s v l, wtruth (write_feffects enc_s v l)).
 Proof.
   split; [exact wtruth_leaf|]. split; [exact wtruth_dval|]. split; [exact wtruth_dblock|].
   split; [exact wtruth_effect|]. split; [exact wtruth_effects|]. split; [exact wtruth_pattern|]. split; [exact wtruth_patterns|].
-  split; [exact wtruth_adj|]. split; [exact wtruth_color_lookup|]. split; [exact wtruth_prec|]. split; [exact wtruth_vmask|]. split; [exact wtruth_vscg|]. split; [exact wtruth_linked|exact wtruth_linked_layers].
+  split; [exact wtruth_adj|]. split; [exact wtruth_color_lookup|]. split; [exact wtruth_prec|]. split; [exact wtruth_vmask|]. split; [exact wtruth_vscg|]. split; [exact wtruth_linked|]. split; [exact wtruth_linked_layers|]. split; [exact wtruth_fchannel|]. split; [exact wtruth_fextra|].
+  split; [exact wtruth_feffect|exact wtruth_feffects].
 Qed.
 Print Assumptions written_truthful_payloads.
 
